@@ -72,6 +72,8 @@ Judge_canon(c) ==
                             LET e == c.enc[i] IN
                             /\ ResOk(P.t, P.st.names, P2.t, P2.st.names, e.bytes, e.back2)
                             /\ ResOk(P2.t, P2.st.names, P.t, P.st.names, e.bytes, e.back3)
+                            \* (the canonical form has no defaults: only data that name every field are written under it)
+                            /\ ("bytes2" \in DOMAIN e => e.bytes2.ok /\ e.bytes2.bytes = e.bytes)
                             /\ ("back4" \in DOMAIN e =>
                                   LET V == Parse(c.variants[1].schema) IN V.ok => ResOk(P.t, P.st.names, V.t, V.st.names, e.bytes, e.back4))) >>
 
